@@ -312,7 +312,7 @@ fn drive(root: &Path, inp: &DiagInput) -> Res {
         let msg = if op.kind == "open" {
             json!({"jsonrpc": "2.0", "method": "textDocument/didOpen", "params": {"textDocument": {"uri": uri, "languageId": "python", "version": version, "text": op.text}}})
         } else {
-            json!({"jsonrpc": "2.0", "method": "textDocument/didChange", "params": {"textDocument": {"uri": uri, "version": version}, "contentChanges": [{"text": op.text}]}})
+            json!({"jsonrpc": "2.0", "method": "textDocument/didChange", "params": {"textDocument": {"uri": uri, "version": version}, "contentChanges": super::lspdrv::content_changes(&op.text)}})
         };
         let bytes = frame(&msg);
         send_fragmented(&mut srv, &bytes, inp.fragment, &mut res.fragments);
